@@ -99,10 +99,19 @@ func BuildCtx(c plan.Ctx) *apd.Context {
 
 // DecVal is the observable value of a Decimal as a string, including the sign
 // of the coefficient (so that a negative or negative-zero coefficient shows).
-func DecVal(d *apd.Decimal) string {
+func DecVal(d *apd.Decimal) (out string) {
 	if d == nil {
 		return "<nil>"
 	}
+	defer func() {
+		if r := recover(); r != nil {
+			switch r.(type) {
+			case hangSentinel, deadlockSentinel:
+				panic(r)
+			}
+			out = fmt.Sprintf("<unobservable: reading the Decimal panics: %v>", r)
+		}
+	}()
 	var sb strings.Builder
 	fmt.Fprintf(&sb, "%d|%v|%d|%s|%d", int(d.Form), d.Negative, d.Exponent, d.Coeff.String(), d.Coeff.Sign())
 	return sb.String()
